@@ -10,7 +10,7 @@
       is therefore a pair (content, allocation id) and every comparison uses the content.
     - src/layer.rs, [Layer::load_impl]: first, sequentially and in key order, every value of
       [contents] must be a plain file name ([plain_name]) that no earlier entry uses (exact
-      comparison), else the load is refused ([InvalidGlyphFileName] / [DuplicateGlyphFileName]).
+      comparison of the lower-cased names), else the load is refused ([InvalidGlyphFileName] / [DuplicateGlyphFileName]).
       Then one task per entry of [contents] (a [BTreeMap], so the keys
       are pairwise distinct by content): intern the key; read and parse the glif, which interns
       the glif's own [name] attribute and then every component [base] in document order
@@ -217,13 +217,23 @@ Definition keys_of (ts : list task) : list str := map (fun t => content (t_key t
 
 (** ** The whole of [Layer::load_impl]: the file-name check (sequential, in key order, in both
     builds), then the glyphs *)
+Definition file_of (t : task) : str := match t_file t with Some f => f | None => [] end.
+(** [str::to_lowercase] on ASCII text (the file names of the generated UFOs are ASCII) *)
+Definition ascii_lower (s : str) : str :=
+  map (fun c => if (65 <=? c)%N && (c <=? 90)%N then (c + 32)%N else c) s.
+
+Section Lower.
+(** [str::to_lowercase] (std, not modelled: an arbitrary function; since f6784f0 the file names are
+    compared lower-cased, like the set of taken file names) *)
+Variable lower : str -> str.
+
 Fixpoint files_ok (seen : list str) (ts : list task) : bool :=
   match ts with
   | [] => true
   | t :: r => match t_file t with
               | None => false                                   (* InvalidGlyphFileName *)
-              | Some f => if existsb (str_eqb f) seen then false (* DuplicateGlyphFileName *)
-                          else files_ok (f :: seen) r
+              | Some f => if existsb (str_eqb (lower f)) seen then false (* DuplicateGlyphFileName *)
+                          else files_ok (lower f :: seen) r
               end
   end.
 Definition par_layer (sched : list nat) (s : nset) (ts : list task) : nset * (N + omap glyph) :=
@@ -233,7 +243,6 @@ Definition seq_layer (s : nset) (ts : list task) : nset * (N + omap glyph) :=
 Definition spec_layer (ts : list task) : option (omap glyphC) :=
   if files_ok [] ts then spec_glyphs ts else None.
 Definition layer_ok (ts : list task) : bool := files_ok [] ts && forallb task_ok ts.
-Definition file_of (t : task) : str := match t_file t with Some f => f | None => [] end.
 
 (** ** The font: layers one after the other, the interner threaded through *)
 Definition layer_in := (str * list task)%type.        (* layer name, its tasks *)
@@ -271,6 +280,8 @@ Fixpoint spec_font (ls : list layer_in) : option (list (str * omap glyphC)) :=
       | Some m => match spec_font r with None => None | Some ms => Some ((ln, m) :: ms) end
       end
   end.
+
+End Lower.
 
 (** ** Saving one layer: every task writes its own file.  The directory is an ordered map from
     path to bytes; a write replaces.  Threads have no interning to do, their single step is the
